@@ -141,9 +141,11 @@ let () =
       let kind = match k with "G" -> KGrmtools | "E" -> KEco | _ -> KOriginal in
       let src = if h = "-" then [] else List.map n_of_int (unhex h) in
       (* optional flags: fc = repaired block-comment scan, fa = repaired action span,
-         fp = repaired production span (/repo 69c4b9b: get_or_insert at the action's brace) *)
-      let fixed = List.mem "fc" rest and fixed_aspan = List.mem "fa" rest and fixed_pspan = List.mem "fp" rest in
-      (match run_case fixed fixed_aspan fixed_pspan kind src with
+         fp = repaired production span (/repo 69c4b9b: get_or_insert at the action's brace),
+         fu = %prec tokens of reachable productions count as used (/repo 4ff022d) *)
+      let fixed = List.mem "fc" rest and fixed_aspan = List.mem "fa" rest and fixed_pspan = List.mem "fp" rest
+      and fixed_precused = List.mem "fu" rest in
+      (match run_case fixed fixed_aspan fixed_pspan fixed_precused kind src with
        | Panic -> "PANIC"
        | OutOfFuel -> "OUTOFFUEL"
        | Done THeader -> "HEADER"
